@@ -93,7 +93,7 @@ Section Simple.
     apply negb_true_iff in C4. apply negb_true_iff in C0. apply Z.leb_le in C3.
     unfold create_instance.
     (* the digits *)
-    destruct (si_ds i) as [|d0 ds'] eqn:ED; [discriminate C4|].
+    destruct (si_ds i) as [|d0 ds'] eqn:ED; [discriminate C4|]. clear C4.
     assert (Hd0 : is_digit d0 = true) by (cbn [forallb] in C5; apply andb_true_iff in C5; exact (proj1 C5)).
     assert (Hd0' : (d0 =? SLASH) = false /\ (d0 =? BSLASH) = false).
     { unfold is_digit in Hd0. apply andb_true_iff in Hd0. destruct Hd0 as [A B]. apply N.leb_le in A, B.
@@ -309,7 +309,7 @@ Section Complex.
     apply negb_true_iff in C4. apply Z.leb_le in C3. apply Nat.leb_le in C0.
     unfold cinst_body. repeat (rewrite <- app_assoc || rewrite <- app_comm_cons). change ([] ++ next) with next.
     unfold create_instance.
-    destruct (ci_ds i) as [|d0 ds'] eqn:ED; [discriminate C4|].
+    destruct (ci_ds i) as [|d0 ds'] eqn:ED; [discriminate C4|]. clear C4.
     assert (Hd0 : is_digit d0 = true) by (cbn [forallb] in C5; apply andb_true_iff in C5; exact (proj1 C5)).
     assert (Hd0' : (d0 =? SLASH) = false /\ (d0 =? BSLASH) = false).
     { unfold is_digit in Hd0. apply andb_true_iff in Hd0. destruct Hd0 as [A B]. apply N.leb_le in A, B.
@@ -429,7 +429,16 @@ Section Mixed.
   Lemma inst_text_shape i more : inst_text i ++ more = seps_text (inst_s0 i) ++ HASH :: (inst_body i ++ more).
   Proof. unfold inst_text. rewrite <- app_assoc. reflexivity. Qed.
 
-  Lemma pass1_mixed is : forall st ws x acc f l,
+  Lemma inst_id_nonzero i next : inst_ok i next = true -> (inst_id i =? 0)%Z = false.
+  Proof.
+    destruct i as [s|c]; cbn [inst_ok inst_id]; intros H.
+    - unfold sinst_ok in H. do 5 (apply andb_true_iff in H; destruct H as [H _]). apply andb_true_iff in H. destruct H as [_ H].
+      apply negb_true_iff in H. exact H.
+    - unfold cinst_ok in H. do 5 (apply andb_true_iff in H; destruct H as [H _]). apply andb_true_iff in H. destruct H as [_ H].
+      apply negb_true_iff in H. exact H.
+  Qed.
+
+  Lemma pass1_mixed is : forall st ws x acc mx f l,
     ginsts_ok is (seps_text st ++ [69; 78; 68; 83; 69; 67] ++ ws ++ SEMI :: x) = true ->
     seps_ok st = true -> forallb is_space ws = true ->
     forallb (inst_accepted creatable legal) is = true ->
@@ -437,9 +446,9 @@ Section Mixed.
     (length is <= f)%nat ->
     token_separator l = token_separator (gsection_text is (seps_text st ++ [69; 78; 68; 83; 69; 67] ++ ws ++ SEMI :: x)) ->
     l <> [] -> is <> [] ->
-    pass1 creatable legal (S f) l acc = (acc ++ map inst_summary is, Done).
+    pass1 creatable legal (S f) l acc (map cid acc) mx = (acc ++ map inst_summary is, Done).
   Proof.
-    induction is as [|i r IH]; intros st ws x acc f l Hok Hst Hws Hcr Hnd Hf Hl Hne Hnn; [congruence|]. clear Hnn.
+    induction is as [|i r IH]; intros st ws x acc mx f l Hok Hst Hws Hcr Hnd Hf Hl Hne Hnn; [congruence|]. clear Hnn.
     set (tail := seps_text st ++ [69; 78; 68; 83; 69; 67] ++ ws ++ SEMI :: x) in *.
     cbn [ginsts_ok] in Hok. apply andb_true_iff in Hok. destruct Hok as [Hi Hr].
     cbn [forallb] in Hcr. apply andb_true_iff in Hcr. destruct Hcr as [Hci Hcr].
@@ -456,6 +465,7 @@ Section Mixed.
     { cbn [map] in Hnd. apply NoDup_remove_2 in Hnd. intros Hin. apply Hnd. apply in_or_app. left. exact Hin. }
     rewrite (create_inst i (map cid acc) next Hi Hci Hnew).
     assert (Hcid : cid (inst_summary i) = inst_id i) by (destruct i; reflexivity).
+    unfold mgr_append. rewrite Hcid, (inst_id_nonzero i next Hi).
     destruct r as [|i2 r2].
     - unfold next. cbn [flat_map app]. unfold tail.
       change ([69; 78; 68; 83; 69; 67] ++ ws ++ SEMI :: x) with (69 :: ([78; 68; 83; 69; 67] ++ ws ++ SEMI :: x)).
@@ -470,12 +480,13 @@ Section Mixed.
       rewrite (token_separator_skips (inst_s0 i2) HASH _ Hs02 eq_refl eq_refl eq_refl).
       rewrite found_endsec_other by reflexivity.
       destruct f as [|f']; [cbn [length] in Hf; lia|].
-      specialize (IH st ws x (acc ++ [inst_summary i]) f'
+      specialize (IH st ws x (acc ++ [inst_summary i]) (Z.max mx (inst_id i)) f'
                      (HASH :: inst_body i2 ++ flat_map inst_text r2 ++ tail)
                      Hr Hst Hws Hcr).
+      rewrite map_app in IH. cbn [map] in IH. rewrite Hcid in IH.
       rewrite IH.
       + rewrite <- app_assoc. reflexivity.
-      + rewrite map_app. cbn [map]. rewrite Hcid. rewrite <- app_assoc. cbn [app]. cbn [map] in Hnd. exact Hnd.
+      + rewrite <- app_assoc. cbn [app]. cbn [map] in Hnd. exact Hnd.
       + cbn [length] in Hf |- *. lia.
       + rewrite token_separator_at by reflexivity.
         fold tail. unfold gsection_text. cbn [flat_map]. rewrite <- app_assoc, inst_text_shape.
@@ -512,7 +523,7 @@ Proof.
   assert (Hh69 : (h =? 69) = false).
   { apply orb_true_iff in Hh. destruct Hh as [E|E]; apply N.eqb_eq in E; subst h; reflexivity. }
   rewrite (match_prefix_first h t 69 _ Hh69).
-  pose proof (pass1_mixed creatable legal (i :: r) st ws x [] (length (seps_text (inst_s0 i) ++ HASH :: B)) (h :: t)) as P.
+  pose proof (pass1_mixed creatable legal (i :: r) st ws x [] (-1)%Z (length (seps_text (inst_s0 i) ++ HASH :: B)) (h :: t)) as P.
   apply P; [exact Hok|exact Hst|exact Hws|exact Hcr|exact Hnd| | |discriminate|discriminate].
   - unfold B. rewrite <- inst_text_shape, <- Hsec. unfold gsection_text. rewrite app_length.
     pose proof (flat_map_length_ge inst_text (i :: r) inst_text_length). lia.
